@@ -113,6 +113,9 @@ def parts(tier):
             CH("inputs", "vflib.props.c08:scen_inputs", {"kinds": "KINDS_FULL", "samples": 2, "keys": ["a"], "symbolic_leaves": False,
                                                          "merge": ["default"]},
                shards=16, timeout=170, path_timeout=30),
+            CH("inputs_two_nested", "vflib.props.c08:scen_inputs", {"kinds": "KINDS_NEST", "samples": 1, "keys": ["a", "b"],
+                                                                     "symbolic_leaves": False, "merge": ["default", "p50n2"]},
+               shards=16, timeout=170, path_timeout=30),
         ]
     return [
         CH("universe40", "vflib.props.c08:scen_universe", {"universe": "full", "max": 3}, shards=16, timeout=800, path_timeout=30),
